@@ -59,7 +59,7 @@ fn history_body(src: &mut Src, st: &mut Stats) -> CaseResult {
             }
             4 if src.flip() => Some(
                 // no data references at all: the result may still depend on the document (a multi-select on null is null)
-                src.pick(&["`1`", "`1.0`", "[`1`, `1.0`]", "`0`", "`-0.0`", "`100`", "`1e2`", "`9007199254740992`", "`9007199254740993`", "`0.3`", "n == `1`", "n == `1.0`", "[length('abc')]", "{k: sort(`[3,1,2]`)}", "[abs(`-1`), 'x']", "to_array(`1`)", "not_null(`null`, 'd')", "[`1`, `2`] | [0]", "'lit'", "{a: 'x', b: length(`[1]`)}", "[[length('ab')]]", "length('x') && [type(`1`)]"]).to_string(),
+                src.pick(&["{a: n, b: s, c: nums, a: s}", "{a: abs(s), b: length(n), c: nums[0], a: n}", "{k: `1`, k: `2`, j: n, i: s, k: s}", "{x: n, y: s, z: b, w: z, x: nums, y: strs}", "`1`", "`1.0`", "[`1`, `1.0`]", "`0`", "`-0.0`", "`100`", "`1e2`", "`9007199254740992`", "`9007199254740993`", "`0.3`", "n == `1`", "n == `1.0`", "[length('abc')]", "{k: sort(`[3,1,2]`)}", "[abs(`-1`), 'x']", "to_array(`1`)", "not_null(`null`, 'd')", "[`1`, `2`] | [0]", "'lit'", "{a: 'x', b: length(`[1]`)}", "[[length('ab')]]", "length('x') && [type(`1`)]"]).to_string(),
             ),
             4 => Some(src.pick(&["sort_by(objs, &m)", "max_by(objs, &m)", "min_by(objs, &m)", "sort_by(objs, &m) | [0]", "s == 'a b'", "o.\"k k\"", "strs[?@ == 'a b']", "`{\"a b\": 1}`.\"a b\"", "join(' , ', strs)", "nope(@)", "abs('x')", "nums[::0]", "sort_by(objs, &to_array(n))", "map(&abs(s), objs)", "objs[*].abs(s)", "length(n)", "sum(strs)",
                 // by-functions whose key expression itself fails on some later element
